@@ -50,6 +50,9 @@ Act(r) ==
   \/ r.ev = "Deliver" /\ \E k \in DOMAIN net[r.arg] : Deliver(r.arg, k, FALSE)
   \/ r.ev = "AutoShutdown" /\ AutoShutdown
   \/ r.ev = "Stall" /\ Stall
+  \/ r.ev = "StopNow" /\ StopNow
+  \/ r.ev = "Restart" /\ Restart
+  \/ r.ev = "Poll" /\ r.arg \in DOMAIN jobs /\ \E k \in 1..jobs[r.arg].pos : Poll(r.arg, k)
   \/ r.ev = "CmdHold" /\ CmdHold(r.arg)
   \/ r.ev = "CmdRelease" /\ CmdRelease(r.arg)
   \/ r.ev = "CmdHoldPoint" /\ CmdHoldPoint(r.arg)
